@@ -1433,8 +1433,16 @@ fn rotation_script(rng: &mut StdRng, msgs: usize, variant: usize) -> Value {
 		let d = if raw_side == 0 && rng.gen_bool(0.15) { 3 - main_d } else { main_d };
 		// the Init message used two nonces: message j (1-based) of a direction starts a new key
 		// epoch when 2*j is a multiple of 1000, i.e. j = 499 (with Init), 999, ...
+		// (a PeerManager also spends nonces on the pings it interleaves every 32 messages, which moves
+		// its rotations forward by an unknown amount: use a wide window, or cut everywhere)
 		let pos = (sent[d] + 1) % 500;
-		let near = pos >= 495 || pos <= 4;
+		let near = if variant % 3 == 0 {
+			true
+		} else if raw_side != 0 {
+			pos >= 495 || pos <= 4
+		} else {
+			pos >= 450 || pos <= 4
+		};
 		let batch = if near { 1 } else { rng.gen_range(1..12) };
 		let mut sizes = Vec::new();
 		for _ in 0..batch {
@@ -1515,7 +1523,8 @@ fn main() {
 		i += 1;
 	}
 	std::panic::set_hook(Box::new(|_| {}));
-	let init_len = calibrate();
+	// (driver knowledge only; a panic in here shows up again in every recorded run)
+	let init_len = catch_unwind(calibrate).unwrap_or(40);
 	let mut scripts: Vec<Value> = Vec::new();
 	if let Some(p) = scripts_path {
 		for line in std::fs::read_to_string(p).unwrap().lines() {
